@@ -89,8 +89,26 @@ HIST_B = "parameters(k=0.5)\nstates(x=1.0)\nw = x/(exp(x) - 1)\ndx_dt = k - w\n"
 ALIASES = ["forward_euler", "forward_explicit_euler", "euler", "explicit_euler", "forward_generalized_rush_larsen", "generalized_rush_larsen", "forward_rush_larsen", "rush_larsen", "hybrid_rush_larsen"]
 
 
+HIST_S = 'parameters("A", p=1.0)\nparameters("B", q=2.0)\nstates("A", a=1.0)\nstates("B", b=2.0)\nexpressions("A")\ni = p*a + b\nda_dt = i - a*q\nexpressions("B")\nj = q*b - i\ndb_dt = j*a + p\n'
+# option objects that a caller naturally re-uses between calls (the library must not modify them)
+SHARED = {"stiff": ["a"], "schemes": None, "missing": None}
+
+
+def sub_models():
+    ode = drive.load(HIST_S)
+    comp = ode.get_component("A")
+    return comp.to_ode(), ode - comp
+
+
+def shared_missing():
+    if SHARED["missing"] is None:
+        A, B = sub_models()
+        SHARED["missing"] = dict(B.missing_variables)
+    return SHARED["missing"]
+
+
 def history_ops():
-    ops = ["loadA", "loadB", "pyA", "pyB", "cA", "jaxA", "failing-load", "remove-sing-B", "save-reload-A", "verbose-main"]
+    ops = ["loadA", "loadB", "pyA", "pyB", "cA", "jaxA", "failing-load", "remove-sing-B", "save-reload-A", "verbose-main", "sub-py-shared-options", "sub-c-shared-options", "matrices-B"]
     ops += [f"pyA+{s}" for s in models.SCHEMES] + [f"cA+{s}" for s in models.SCHEMES] + ["pyA+all", "pyA+ru"]
     ops += [f"get_scheme:{a}" for a in ALIASES]
     return ops
@@ -112,6 +130,15 @@ def do_op(op):
         drive.c_code(drive.load(HIST_A))
     elif op == "jaxA":
         drive.py_code(drive.load(HIST_A), backend="jax", scheme=["explicit_euler"])
+    elif op in ("sub-py-shared-options", "sub-c-shared-options"):
+        A, B = sub_models()
+        if op.startswith("sub-py"):
+            drive.py_code(A, missing_values=shared_missing(), scheme=["explicit_euler", "hybrid_rush_larsen"], stiff_states=SHARED["stiff"])
+        else:
+            drive.c_code(A, missing_values=shared_missing(), scheme=["hybrid_rush_larsen"], stiff_states=SHARED["stiff"])
+    elif op == "matrices-B":
+        from gotranx import sympytools
+        sympytools.jacobi_matrix(drive.load(HIST_B))
     elif op == "failing-load":
         try:
             drive.load("states(x=1)\ndx_dt = nope\n")
@@ -162,6 +189,11 @@ def final_observation():
         from gotranx.codegen.python import Format
         cg = PythonCodeGenerator(ode, format=Format.none)
         out["A-alias-euler"] = hashlib.sha256(cg.scheme(get_scheme("euler")).encode()).hexdigest()[:16]
+        A, B = sub_models()
+        out["sub-shared-options"] = hashlib.sha256(drive.py_code(A, missing_values=shared_missing(), scheme=["hybrid_rush_larsen"], stiff_states=SHARED["stiff"]).encode()).hexdigest()[:16]
+        out["shared-options-intact"] = json.dumps([SHARED["stiff"], sorted(shared_missing().items())])
+        from gotranx import sympytools
+        out["matrices-A"] = hashlib.sha256(str(sympytools.jacobi_matrix(ode)).encode()).hexdigest()[:16]
     return out
 
 
